@@ -195,6 +195,12 @@ macro_rules! fwd_all_but_option {
     };
 }
 
+/// a serde_json error of category Data (valid JSON of the wrong shape: wrong member type,
+/// missing member), built by serde_json's own de::Error::custom
+pub fn json_data_err() -> serde_json::Error {
+    <serde_json::Error as de::Error>::custom("x")
+}
+
 pub struct BoolDe(pub bool);
 impl<'de> Deserializer<'de> for BoolDe {
     type Error = DErr;
